@@ -529,8 +529,11 @@ def _child(root, scn, step, resfile, outf, errf):
     mains = load_mains()
     os.chroot(root)
     os.chdir('/')
-    cwd = scn.get('cwd', '/')
-    os.chdir(os.fsencode(cwd))
+    cwd = step.get('cwd_override') or scn.get('cwd', '/')
+    try:
+        os.chdir(os.fsencode(cwd))
+    except OSError:
+        os.chdir('/')
     os.environ.clear()
     for k, v in (scn.get('env') or {}).items():
         os.environ[k] = v
@@ -702,6 +705,26 @@ def execute(scn, snap_each=True, keep=False):
         before = snapshot(root)
         outs = []
         for step in scn['steps']:
+            if step.get('cmd') == 'fs':
+                # a change made by "someone else" between two commands: [['rmtree', path] | ['mkdir', path] | ['write', path, text]]
+                for op in step.get('ops') or []:
+                    rp = os.fsencode(_real(root, op[1]))
+                    try:
+                        if op[0] == 'rmtree':
+                            shutil.rmtree(rp) if os.path.isdir(rp) and not os.path.islink(rp) else os.unlink(rp)
+                        elif op[0] == 'mkdir':
+                            os.makedirs(rp, exist_ok=True)
+                        elif op[0] == 'write':
+                            os.makedirs(os.path.dirname(rp), exist_ok=True)
+                            with open(rp, 'wb') as f:
+                                f.write(op[2].encode('utf-8', 'surrogateescape'))
+                    except OSError:
+                        pass
+                obs = {'exit': 0, 'exc': None, 'trace': [], 'stdout': '', 'stderr': '', 'nmut': 0, 'muts': [], 'fs': True}
+                if snap_each:
+                    obs['after'] = snapshot(root)
+                outs.append(obs)
+                continue
             obs = run_step(root, scn, step)
             if snap_each:
                 obs['after'] = snapshot(root)
